@@ -45,6 +45,17 @@ func runC14(c *core.Ctx) {
 			names[strings.ToLower(s)] = true
 		}
 	}
+	// names kept in a constant table and compared through slices.ContainsFunc
+	isIdentName := func(v ssa.Value) bool { return an.MentionsField(v, "Ident", "Name") }
+	for _, ci := range an.AllCalls(visit, false) {
+		if call, ok := ci.(*ssa.Call); ok {
+			if tab, ok := equalFoldTable(c, call, isIdentName); ok {
+				for _, s := range tab {
+					names[strings.ToLower(s)] = true
+				}
+			}
+		}
+	}
 	c.Count("function names compared in Visit", len(names))
 	c.Min("function names compared in Visit", 9)
 	for _, f := range c14Funcs {
@@ -118,6 +129,14 @@ func runC14(c *core.Ctx) {
 					if s, ok := an.ConstString(x.Common().Args[1]); ok && an.MentionsField(x.Common().Args[0], "Ident", "Name") {
 						return strings.EqualFold(s, fname), true
 					}
+				}
+				if tab, ok := equalFoldTable(c, x, isIdentName); ok {
+					for _, s := range tab {
+						if strings.EqualFold(s, fname) {
+							return true, true
+						}
+					}
+					return false, true
 				}
 				if an.IsCall(x, "command/sql.isNow") {
 					if v, ok := extra["isNow"]; ok {
@@ -317,21 +336,24 @@ func c14lang(c *core.Ctx) {
 		// the substrings tested with strings.Contains
 		var subs []string
 		seen := map[string]bool{}
-		an.Instrs(fn, func(in ssa.Instruction) {
-			if st, ok := in.(*ssa.Store); ok {
-				if s, ok := an.ConstString(st.Val); ok && !seen[s] {
-					seen[s] = true
-					subs = append(subs, s)
+		// (the test may sit in a closure handed to slices.ContainsFunc)
+		for _, f := range an.WithClosures(fn) {
+			an.Instrs(f, func(in ssa.Instruction) {
+				if st, ok := in.(*ssa.Store); ok {
+					if s, ok := an.ConstString(st.Val); ok && !seen[s] {
+						seen[s] = true
+						subs = append(subs, s)
+					}
 				}
-			}
-			if call, ok := in.(*ssa.Call); ok && an.IsCall(call, "strings.Contains") {
-				if s, ok := an.ConstString(call.Common().Args[1]); ok && !seen[s] {
-					seen[s] = true
-					subs = append(subs, s)
+				if call, ok := in.(*ssa.Call); ok && an.IsCall(call, "strings.Contains") {
+					if s, ok := an.ConstString(call.Common().Args[1]); ok && !seen[s] {
+						seen[s] = true
+						subs = append(subs, s)
+					}
 				}
-			}
-		})
-		if len(an.CallsTo(fn, false, "strings.Contains")) == 0 || len(subs) == 0 {
+			})
+		}
+		if len(an.CallsTo(fn, true, "strings.Contains")) == 0 || len(subs) == 0 {
 			c.Unk("C14.c", "LANG", fl.fn+":guard", c.P.Pos(fn.Pos()), "the pre-filter is no longer a set of constant substring tests; the LANG rule cannot read it")
 			continue
 		}
@@ -359,7 +381,7 @@ func c14lang(c *core.Ctx) {
 					pat = globalRegexConst(c, "command/sql", g.Name())
 				}
 			}
-			if pat == "" || an.Unwrap(call.Common().Args[1]) != ssa.Value(fn.Params[0]) {
+			if pat == "" || !isParamOrItsSpill(call.Common().Args[1], fn.Params[0]) {
 				shapeOK = false
 				break
 			}
